@@ -243,12 +243,13 @@ unsafe impl Allocator for Arena {
         new_layout: Layout,
     ) -> Result<NonNull<[u8]>, AllocError> {
         debug_assert!(new_layout.size() >= old_layout.size());
-        debug_assert!(new_layout.align() <= old_layout.align());
 
         let new_ptr;
 
-        // Growing the given area is possible if it is at the end of the arena.
-        if unsafe { ptr.add(old_layout.size()) == self.base.add(self.offset.get()) } {
+        // Growing the given area is possible if it is at the end of the arena
+        // and already aligned as the new layout asks.
+        let aligned = ptr.as_ptr().addr() & (new_layout.align() - 1) == 0;
+        if aligned && unsafe { ptr.add(old_layout.size()) == self.base.add(self.offset.get()) } {
             new_ptr = ptr;
             let delta = new_layout.size() - old_layout.size();
             // Assuming that the given ptr/length area is at the end of the arena,
